@@ -127,8 +127,17 @@ PROPS = {
              'loading into managers with other orders and other contents.',
              bounded=['vlib.rtc.c12'], tb=['pickle / json / shelve modules and the file system', '_load_pickle, _dump, dd._copy.* : bounded only'],
              design_ref='DESIGN.md 7/C12'),
-    'C13': P('exploration', 'Relational product against the truth-table composition under the documented preconditions; exhaustive for one pair.',
-             proof=False, bounded=['vlib.rtc.c13'], design_ref='DESIGN.md 7/C13'),
+    'C13': P('other',
+             'Proved: dd.bdd._image (the recursion shared by image and preimage, one variant each) and _image_root: the result denotes '
+             'IMG(u, v) (FIMG for forall), the ghost relational product on pairs of references, for an arbitrary assignment; the memo '
+             'table keyed by the ordered pair stays valid; no existing node changes; requests are suspended and restored. The '
+             'recursion equations of IMG/FIMG over the frozen entry heap are the DEFINITION of the ghost here (ASSUMED in the SMT layer): '
+             'that they hold for the semantic relational product (rename, conjoin, quantify) under the documented adjacency '
+             'precondition is lemma L-IMG (lean/BddTheory.lean). The wrappers image()/preimage() (argument translation, precondition '
+             'checks) and the equality with rename/conjoin/quantify itself are checked against the truth-table composition, '
+             'exhaustive for one variable pair.',
+             bounded=['vlib.rtc.c13'], tb=['IMG/FIMG recursion equations (ghost definition; see lemma L-IMG)', 'image(), preimage(), _assert_valid_rename, _all_adjacent: bounded only'],
+             design_ref='DESIGN.md 7/C13'),
     'C14': P('other',
              'Proved: add_var (idempotent for existing names, next bottom level by default, ValueError iff conflict with state unchanged, '
              'all functions and the WF invariant kept), _check_var, _next_free_level, _init_terminal, declare (loop invariant), '
